@@ -311,6 +311,17 @@ class Engine:
                 facts += self.type_facts(it)
         return facts
 
+    def prove_all(self, st, clauses, prefix, kind, line):
+        """prove a list of conjuncts in order; each may rely on the ones before it (sequential assertion semantics:
+        a failing earlier conjunct is reported on its own)"""
+        for k, cl in enumerate(clauses):
+            try:
+                g = self.spec(cl, st)
+            except EngineError as e:
+                raise EngineError(f"{prefix}#{cl.name or k}: {e}")
+            self.oblige(st, g, f"{prefix}#{cl.name or k}", kind, line, cl.text, cl.props)
+            st.assume(g)
+
     # ------------------------------------------------------------------------------------------ exits
     def at_return(self, st, val, line):
         c = self.c
@@ -321,13 +332,8 @@ class Engine:
             return
         st = st.clone()
         st.env["result"] = val
-        for k, cl in enumerate(c.ensures):
-            try:
-                g = self.spec(cl, st)
-            except EngineError as e:
-                raise EngineError(f"ensures#{k} {cl.text!r}: {e}")
-            self.oblige(st, g, f"post#{cl.name or k}@{line}", "post", line, cl.text, cl.props)
         self.canary_points.append((f"{self.short}/canary/return@{line}", list(st.pc)))
+        self.prove_all(st, c.ensures, f"post@{line}", "post", line)
 
     def at_raise(self, o):
         c = self.c
@@ -393,6 +399,13 @@ class Engine:
         return outs
 
     def exec_ghost(self, text, st):
+        if text.startswith("assert "):
+            cl = Clause(text[len("assert "):])
+            g = self.spec(cl, st)
+            self.hint_no = getattr(self, "hint_no", 0) + 1
+            self.oblige(st, g, f"hint#{self.hint_no}", "hint", None, cl.text)
+            st.assume(g)
+            return
         node = ast.parse(text.strip()).body[0]
         if not isinstance(node, ast.Assign) or not isinstance(node.targets[0], ast.Name):
             raise EngineError(f"ghost statement must be 'name = expr': {text}")
@@ -690,8 +703,7 @@ class Engine:
         # --- initialisation
         st.env[idx] = z3.IntVal(0)
         desc.bind_head(self, s.target, st, z3.IntVal(0))
-        for k, cl in enumerate(spec.inv):
-            self.oblige(st, self.spec(cl, st), f"{lab}/inv_init#{cl.name or k}", "inv_init", s.lineno, cl.text, cl.props)
+        self.prove_all(st.clone(), spec.inv, f"{lab}/inv_init", "inv_init", s.lineno)
         # --- arbitrary iteration
         mods = self.modified_in(s, spec)
         head = st.clone()
@@ -714,9 +726,7 @@ class Engine:
                 e = o.st
                 e.env[idx] = kvar + 1
                 desc.bind_head(self, s.target, e, kvar + 1)
-                for k, cl in enumerate(spec.inv):
-                    self.oblige(e, self.spec(cl, e), f"{lab}/inv_preserved#{cl.name or k}", "inv_preserved",
-                                s.lineno, cl.text, cl.props)
+                self.prove_all(e, spec.inv, f"{lab}/inv_preserved", "inv_preserved", s.lineno)
             elif o.kind == "break":
                 outs_final.append(Outcome("normal", o.st))
             else:
@@ -737,8 +747,7 @@ class Engine:
     def st_While(self, s, st):
         lab, spec = self.loop_spec(s)
         outs_final = []
-        for k, cl in enumerate(spec.inv):
-            self.oblige(st, self.spec(cl, st), f"{lab}/inv_init#{cl.name or k}", "inv_init", s.lineno, cl.text, cl.props)
+        self.prove_all(st.clone(), spec.inv, f"{lab}/inv_init", "inv_init", s.lineno)
         mods = self.modified_in(s, spec)
         head = st.clone()
         self.havoc(head, mods, s.body)
@@ -759,9 +768,7 @@ class Engine:
             for o in outs:
                 if o.kind in ("normal", "continue"):
                     e = o.st
-                    for k, cl in enumerate(spec.inv):
-                        self.oblige(e, self.spec(cl, e), f"{lab}/inv_preserved#{cl.name or k}", "inv_preserved",
-                                    s.lineno, cl.text, cl.props)
+                    self.prove_all(e, spec.inv, f"{lab}/inv_preserved", "inv_preserved", s.lineno)
                     if variant0 is not None:
                         v1 = self.spec(spec.variant, e)
                         self.oblige(e, z3.And(v1 < variant0, variant0 >= 0 if is_int(variant0) else variant0 >= 0),
@@ -1304,7 +1311,7 @@ class Engine:
             if not spec:
                 raise EngineError("ghost sequence in code")
             return base.select(self.as_index(self.ev(idx_nodes[0], st, spec)))
-        if is_z3(base) and z3.is_array_sort(base.sort()):
+        if is_z3(base) and base.sort().kind() == z3.Z3_ARRAY_SORT:
             if not spec:
                 raise EngineError("raw array in code")
             z = base
